@@ -148,6 +148,9 @@ func runC01(c *core.Ctx) {
 		c.Check(reaches, "longer-dumps-subtree", gl.Name(), gl.Decl.Pos(), "GetLonger no longer reaches the subtree dump (*node).dumpPfxs")
 	}
 
+	// the placement arithmetic (Contains/GetSupernet/BitAtPosition): the structural clauses of C15
+	runC15(c)
+
 	// (3) route counter ----------------------------------------------------------------------------
 	cnt := p.Field(pkg, "RoutingTable", "routeCount")
 	if cnt == nil {
